@@ -414,6 +414,33 @@ impl Driver {
                 s.issued.extend(ids.iter().copied());
                 json!({"res": {"ids": ids.iter().map(|i| idj(*i)).collect::<Vec<_>>()}})
             }
+            "extend_ragged" => {
+                // columns of different lengths through the SAFE constructor Batch::new: must panic
+                let lens: Vec<usize> = op["lens"].as_array().unwrap().iter().map(|x| x.as_u64().unwrap() as usize).collect();
+                let s = self.slot(w);
+                let world = &mut s.world;
+                let r = std::panic::catch_unwind(AssertUnwindSafe(|| {
+                    use brood::entities::{Batch, Null};
+                    let c0: Vec<S> = (0..lens[0]).map(|k| S::fresh(k as u32)).collect();
+                    let c1: Vec<W> = (0..lens[1]).map(|k| W::fresh(k as u32)).collect();
+                    let c2: Vec<H> = (0..lens[2]).map(|k| H::fresh(k as u32)).collect();
+                    if lens.len() == 3 {
+                        let b = Batch::new((c0, (c1, (c2, Null))));
+                        heap::lib(|| world.extend(b))
+                    } else {
+                        let c3: Vec<T8> = (0..lens[3]).map(|k| T8::fresh(k as u32)).collect();
+                        let b = Batch::new((c0, (c1, (c2, (c3, Null)))));
+                        heap::lib(|| world.extend(b))
+                    }
+                }));
+                match r {
+                    Err(_) => json!({"res": {"rejected": true}}),
+                    Ok(ids) => {
+                        s.issued.extend(ids.iter().copied());
+                        json!({"res": {"rejected": false, "ids": ids.iter().map(|i| idj(*i)).collect::<Vec<_>>()}})
+                    }
+                }
+            }
             "remove" => {
                 let id = self.resolve(w, &op["e"]);
                 { let s = self.slot(w); heap::lib(|| s.world.remove(id)); }
